@@ -551,3 +551,27 @@ package lnwallet
 //@   props C01
 //@   ensures result == ite(chanType.IsTaproot(), input.TaprootCommitWeight, ite(chanType.HasAnchors(), input.AnchorCommitWeight, input.CommitWeight))
 //@   modifies nothing
+//@
+//@ func genHtlcSigValidationJobs$3
+//@   props C01
+//@   site call CreateHtlcSuccessTx: assert arg(0) == chanType && arg(1) == isLocalInitiator &&
+//@        arg(2).Index == wrap(htlc.localOutputIndex, 32) &&
+//@        arg(3) == swrap(fdiv(htlc.Amount, 1000) - ret(HtlcSuccessFee), 64) && arg(4) == localChanCfg.CsvDelay && arg(5) == leaseExpiry &&
+//@        arg(6) == keyRing.RevocationKey && arg(7) == keyRing.ToLocalKey
+//@   site call HtlcSuccessFee: domain 0 <= arg(1) && arg(1) <= 1<<40
+//@
+//@ func genHtlcSigValidationJobs$4
+//@   props C01
+//@   site call CreateHtlcTimeoutTx: assert arg(0) == chanType && arg(1) == isLocalInitiator &&
+//@        arg(2).Index == wrap(htlc.localOutputIndex, 32) &&
+//@        arg(3) == swrap(fdiv(htlc.Amount, 1000) - ret(HtlcTimeoutFee), 64) && arg(4) == htlc.Timeout &&
+//@        arg(5) == localChanCfg.CsvDelay && arg(6) == leaseExpiry &&
+//@        arg(7) == keyRing.RevocationKey && arg(8) == keyRing.ToLocalKey
+//@   site call HtlcTimeoutFee: domain 0 <= arg(1) && arg(1) <= 1<<40
+//@
+//@ func genHtlcSigValidationJobs
+//@   props C01
+//@   requires chanState != nil
+//@   loop * havoc
+//@   site store VerifyJob.HtlcIndex: assert isLocalInitiator == old(chanState.IsInitiator) && chanType == old(chanState.ChanType) &&
+//@        localChanCfg.CsvDelay == old(chanState.LocalChanCfg.CsvDelay) && localChanCfg.DustLimit == old(chanState.LocalChanCfg.DustLimit)
